@@ -103,7 +103,7 @@ class Exec:
     def __init__(s, mods, limits=None, params=None, concrete=None, allowed_throws=(), leakcheck=False):
         s.mods = mods; s.lim = limits or Limits(); s.params = params or {}; s.concrete = concrete
         s.allowed_throws = set(allowed_throws); s.leakcheck = leakcheck
-        s.solver = z3.Solver(); s.solver.set('timeout', min(s.lim.fast_ms, s.lim.query_ms)); s.fallbacks = 0; s.merges = 0
+        s.solver = z3.Solver(); s.solver.set('timeout', min(s.lim.fast_ms, s.lim.query_ms)); s.fallbacks = 0; s.merges = 0; s._pinned = []
         s.queries = 0; s.qtime = 0.0; s.qmax = 0.0; s.cache_hits = 0
         s.paths = []; s.violations = []; s.vkeys = set(); s.reached = {}; s.insn = 0; s.forks = 0
         s.gaddr = {}; s.fnids = {}; s.fnnames = []; s.ufs = {}; s.uf_used = {}
@@ -196,6 +196,9 @@ class Exec:
         e = simp(e)
         if not is_sym(e): return e
         k = e.get_id()
+        # z3 re-uses the id of a garbage-collected AST: pin every expression whose id is used as a cache key, otherwise a
+        # later, different expression can hit a stale entry (observed: wrong concretisation -> spurious counterexample)
+        s._pinned.append(e)
         if k in st.conc: return st.conc[k]
         if s.concrete is not None: raise Inconclusive('symbolic value in concrete mode')
         vals = []; extra = []
